@@ -13,7 +13,16 @@ Oracle : per loop, winners = flows whose action equals the action of ONE top-sco
          and the element-wise comparison of the chains (missing elements = exact match) name the same top set for every
          value the score of a Finished-match can have; otherwise only 'exactly one action set proceeds' is checked and the
          case is counted as skipped.
+Multi-argument actions: an action may carry 1-2 further keyword arguments (intensity / volume in {1, 2, 0.5}); its identity is its type and
+         the VALUES of its arguments - the order in which the keyword arguments are written and the spelling of a number (1 / 1.0) vary
+         per flow, so 'identical actions' are also generated written differently (every form: direct, wrapped, fork, round 2, chained);
+         argument order is never part of the identity, for 1 vs 1.0 both readings are accepted (unspecified).
+Instances: a sixth of the cases use an ACTIVATED flow `reactor` (loop NEW / L1 / loop of main) with 2-3 stages `match Ev(..)` + `start
+         <action>` and the documented label `start_new_flow_instance:` behind one of its matches: older and newer instances of it are
+         alive together, 2-4 events are fed; reference model over the history (who waits where, who fits, groups by loop - each instance
+         of a NEW-loop flow has a loop of its own -, usual rule per group, restart of the newest instance when it fails or finishes).
 """
+import itertools
 import json
 from collections import Counter
 
@@ -27,24 +36,49 @@ LEVEL = "exploration"
 CASE_TIMEOUT = 30
 RULE = (
     "n in 2..6 flows started by main; flow i: [@loop(L1|NEW)] [priority p in {1.0,0.5,0.1}] match Ev(subset of a=1,b=2,c=3 "
-    "[one value wrong => does not fit]) then start UtteranceBotAction(script=A|B|C) or GestureBotAction(gesture=A|B); "
+    "[one value wrong => does not fit]) then start UtteranceBotAction(script=A|B|C) or GestureBotAction(gesture=A|B); a quarter of the flows use a "
+    "MULTI-ARGUMENT action: 1-2 further keyword arguments intensity / volume with a value from {1, 2, 0.5}, all arguments written in a drawn order "
+    "(script=.., intensity=.. / intensity=.., script=.. / ...), int-valued numbers written 1 or 1.0 per flow; the identity of an action is its type plus "
+    "the values of its arguments (1 vs 1.0: either reading, see assumptions), so equal actions occur written differently; forced shape (a quarter of the cases): flow 1 and some others start the action "
+    "of flow 0 in another writing (other argument order and/or other number spelling), two times out of three in the loop of flow 0; "
     "direct or wrapped one level down (all flows of a case use the same depth); some flows start their action through a head fork (`when <Action>`), in a quarter of those cases a supervisor flow in its own loop stops one competitor with `send StopFlow` on the same event; in one direct case of three a second round follows: the co-winners "
     "share one action object, its Finished event is fed and they compete again on `match $a.Finished()` (only priorities differ) with second actions; event Ev(a=1,b=2,c=3); tie-break index list "
-    "drawn. About a fifth of the generated cases are CHAINED: every flow has its own depth - direct, or its match on Ev sits in a helper flow (own helper h<i>, or "
+    "drawn. About a quarter of the generated cases are CHAINED: every flow has its own depth - direct, or its match on Ev sits in a helper flow (own helper h<i>, or "
     "one of 0-2 helpers hs<k> started by main and shared by several competitors) and the flow reaches its action through 1-2 links, each either "
     "`start X` + `match X.Finished()` by flow name or `await X`, each level (helper, middle flow, competitor) with its own priority from {none,1.0,0.5,0.1}; "
     "forced shapes (2 of 7 each): the chain of flow 1 is a proper prefix of the chain of flow 0 (same loop/specificity/priority, fewer links), or flows differ "
     "from flow 0 only in the priority of one link, i.e. in a flow that matches an internal Finished event; (1 of 7) identical chains. An enumerated family (900 cases) "
     "pairs every long form (6 link patterns x own/shared helper x 3 settings of the external match) with each of its proper prefixes and with a copy whose priority "
     "differs in one link, in both start orders, for both tie-break outcomes, with/without a third less specific direct competitor. "
+    "A sixth of the generated cases are INSTANCES cases: main activates a flow `reactor` ([@loop(NEW x3 | L1)] or the loop of main, [priority 0.5|0.1]) with 2-3 "
+    "stages `match Ev(subset, maybe one altered value)` + `start <action>` (a third: the same action in every stage, possibly written differently) that then "
+    "waits forever or (a quarter) ends; the label `start_new_flow_instance:` sits behind the match of one stage, before or after the action of that stage "
+    "(mostly the first stage; sometimes no label), so that an older instance (further down) and newer ones (at the first match) are alive at the same time; "
+    "0-3 plain one-shot flows as above are started before/after the activation; 2-4 events Ev(a,b,c), each with at most one altered parameter value (a stage or "
+    "flow written with the altered value fits only then); tie-break list rotated per event. Enumerated: 396 spelling cases (flow 1 writes the three-argument "
+    "action of flow 0 in each of the 11 other ways x who is more specific / exact tie x no / less specific / more specific third flow with another action x direct "
+    "(half of them through a head fork) / wrapped x both tie-breaks) and 216 instances cases (two stages, label behind the first match before/after the action, "
+    "3x3 specificities of the two matches, different/identical actions, loop NEW / L1 / main, three events, both tie-breaks). "
     "Non-trivial = some loop has >=3 fitting flows with >=2 distinct scores, or an exact tie between different "
     "actions, or >=2 loops with fitting flows; chained: a loop with >=2 different actions where the winner is determined and somebody loses or an exact tie "
-    "between different actions exists; distinct by case."
+    "between different actions exists; instances cases: at some event two instances of the reactor fit (older and newer), or an instance and another "
+    "candidate meet in one loop; distinct by case."
 )
 ASSUMPTIONS = [
     "scores within 1e-9 are treated as tied and any tied flow may win (validity predicate)",
     "in the wrapped variant the priority statement sits in the inner flow that performs the match, so the first element of the score chain is 0.9^u x p",
     "only action starts compete; the event carries exactly the three parameters a, b, c",
+    "an action is identical to another iff type and argument values are equal; the order in which keyword arguments are written is not part of an action",
+    "whether intensity=1 and intensity=1.0 are the same argument value is NOT specified (Colang expressions say 1 == 1.0, event matching treats them as different, "
+    "C04 lists the pair as unspecified): such pairs are generated, the by-value reading is tried first and, if the outcome contradicts it, the by-value-and-type "
+    "reading is accepted for the whole case, which is then counted as skipped; an outcome that fits neither reading is a violation",
+    "instances cases rely on docs/colang_2/language_reference/more-on-flows.rst: `start_new_flow_instance:` starts a new instance and the current one continues; "
+    "an instance that already started a new instance does not start another one; an activated flow restarts when it finishes or fails (the newest instance "
+    "only - the older ones already started their successor); the new instance does not react to the event during which it was created; @loop(\"NEW\") creates "
+    "a new loop for each flow call, i.e. for every instance; a named loop or the inherited loop is shared by all instances, which then compete like any "
+    "other flows of that loop (score 0.9^unmentioned x the flow's priority)",
+    "instances cases: reactor instances are identified by the order in which their flow states first appear; where exact ties leave a choice the observed "
+    "statuses select the branch the reference model continues with",
     "chained cases: the score chain of a flow is [0.9^u x p of the match on Ev] followed by one element per link = (score of the match on the helper's "
     "Finished event) x (priority of the flow that performs this match); the score of a Finished-match is NOT taken from the implementation: a match by flow "
     "name is an unknown N in (0,1) (the FlowFinished event has parameters besides flow_id that stay unmentioned), the match behind `await` an unknown A in (0,1], "
@@ -58,8 +92,85 @@ PARAMS = {"a": 1, "b": 2, "c": 3}
 ACTIONS = [("UtteranceBotAction", "script", "A"), ("UtteranceBotAction", "script", "B"), ("UtteranceBotAction", "script", "C"), ("GestureBotAction", "gesture", "A"), ("GestureBotAction", "gesture", "B")]
 
 
+# further keyword arguments an action can carry (multi-argument actions); int-valued numbers can be written `1` or `1.0`
+EXTRA_NAMES = ["intensity", "volume"]
+EXTRA_VALUES = [1, 2, 0.5]
+
+
 def budget(tier):
     return 6000 if tier == "quick" else 80000
+
+
+def _written_args(f):
+    """The keyword arguments of the action of f as they are WRITTEN: [(name, literal)] in the order of the program text."""
+    typ, key, val = ACTIONS[f["action"]]
+    args = [(key, f'"{val}"')]
+    for n, v in f.get("extra") or []:
+        args.append((n, repr(float(v)) if (f.get("floats") or v != int(v)) else repr(int(v))))
+    perms = list(itertools.permutations(range(len(args))))
+    return [args[k] for k in perms[(f.get("perm") or 0) % len(perms)]]
+
+
+def _action_text(f):
+    return ACTIONS[f["action"]][0] + "(" + ", ".join(f"{n}={v}" for n, v in _written_args(f)) + ")"
+
+
+# Reading of 'identical action' for numbers: False = by value (1 and 1.0 are the same argument value), True = by value and numeric type.
+# The order of the keyword arguments is never part of an action. Neither the statement nor the documentation says which reading holds
+# (event matching in the same runtime does distinguish 1 from 1.0), so `prop` accepts either - consistently for the whole case.
+_ID = {"typed": False}
+
+
+def _aid(f, typed=None):
+    """Identity of the action of f: type, and the value of every argument (never the order in which they are written)."""
+    typed = _ID["typed"] if typed is None else typed
+    return (
+        f["action"],
+        tuple(sorted((n, float(v)) + ((bool(f.get("floats")) or v != int(v),) if typed else ()) for n, v in (f.get("extra") or []))),
+    )
+
+
+def _spelling_sensitive(case):
+    """Two actions of the case have equal argument values but differ in the numeric type of one (intensity=1 vs intensity=1.0)."""
+    fs = list(case["flows"]) + list((case.get("reactor") or {}).get("stages") or [])
+    return any(_aid(x, False) == _aid(y, False) and _aid(x, True) != _aid(y, True) for x, y in itertools.combinations(fs, 2))
+
+
+def _aid_key(aid):
+    typ, _, val = ACTIONS[aid[0]]
+    return (typ, val, aid[1])
+
+
+def _start_key(e):
+    """The same identity read from an outgoing Start...BotAction event."""
+    typ = e["type"][5:]
+    extra = tuple(
+        sorted(
+            ((n, float(e[n])) + ((isinstance(e[n], float),) if _ID["typed"] else ())) if isinstance(e[n], (int, float)) and not isinstance(e[n], bool) else (n, repr(e[n]))
+            for n in EXTRA_NAMES
+            if n in e
+        )
+    )
+    return (typ, e.get("script" if typ == "UtteranceBotAction" else "gesture"), extra)
+
+
+def _is_start(e):
+    return e["type"].startswith("Start") and e["type"].endswith("BotAction")
+
+
+def _key_text(k):
+    def num(x):
+        if not isinstance(x[1], float):
+            return f"{x[0]}={x[1]}"
+        return f"{x[0]}={x[1]:g}" if len(x) == 2 else f"{x[0]}={x[1] if x[2] else int(x[1])!r}"
+
+    return f"{k[0]}:{k[1]}" + ("{" + ",".join(num(x) for x in k[2]) + "}" if k[2] else "")
+
+
+def _adesc(f):
+    if f.get("extra"):
+        return ACTIONS[f["action"]][0][:3] + "(" + ", ".join(f"{n}={v}" for n, v in _written_args(f)) + ")"
+    return f"{ACTIONS[f['action']][0][:3]}:{ACTIONS[f['action']][2]}"
 
 
 @st.composite
@@ -68,13 +179,43 @@ def _flow(draw):
     wrong = None
     if mentioned and draw(st.integers(0, 5)) == 0:
         wrong = draw(st.sampled_from(mentioned))
-    return {
+    f = {
         "mentioned": mentioned,
         "wrong": wrong,
         "priority": draw(st.sampled_from([None, None, 1.0, 0.5, 0.1])),
         "action": draw(st.integers(0, len(ACTIONS) - 1)),
         "loop": draw(st.sampled_from([None, None, None, "L1", "L1", "NEW"])),
     }
+    if draw(st.integers(0, 3)) == 0:
+        f.update(draw(_spelling(1)))
+    return f
+
+
+@st.composite
+def _spelling(draw, min_extra):
+    """Multi-argument action: 0-2 further keyword arguments, the order in which all arguments are written, the spelling of numbers."""
+    names = draw(st.lists(st.sampled_from(EXTRA_NAMES), unique=True, min_size=min_extra, max_size=2))
+    return {"extra": [[n, draw(st.sampled_from(EXTRA_VALUES))] for n in names], "perm": draw(st.integers(0, 5)), "floats": draw(st.booleans())}
+
+
+def _respell(draw, flows):
+    """Forced shape: some flows start the action of flow 0 (same type, same argument VALUES) written differently - keyword
+    arguments in another order and/or int-valued numbers spelled as float (1 vs 1.0); mostly in the loop of flow 0."""
+    if not flows[0].get("extra"):
+        flows[0] = dict(flows[0], **draw(_spelling(1)))
+    f0 = flows[0]
+    nperm = [1, 2, 6][len(f0["extra"])]
+    for j in range(1, len(flows)):
+        if j == 1 or draw(st.booleans()):
+            flows[j] = dict(
+                flows[j],
+                action=f0["action"],
+                extra=_cp(f0["extra"][:: draw(st.sampled_from([1, -1]))]),
+                perm=(f0["perm"] % nperm + draw(st.integers(0, nperm - 1))) % nperm,
+                floats=draw(st.booleans()),
+            )
+            if draw(st.integers(0, 2)) != 0:
+                flows[j]["loop"] = f0["loop"]
 
 
 LINK_PRIOS = [None, None, 1.0, 0.5, 0.1]
@@ -156,7 +297,12 @@ def _case(draw):
     if draw(st.booleans()):
         # force interesting shapes: copy the specificity of flow 0 to flow 1 (tie) with a different action
         flows[1] = dict(flows[1], mentioned=flows[0]["mentioned"], wrong=flows[0]["wrong"], priority=flows[0]["priority"], loop=flows[0]["loop"])
-    if draw(st.integers(0, 3)) == 3:
+    if draw(st.integers(0, 3)) == 0:
+        _respell(draw, flows)
+    kind = draw(st.integers(0, 11))
+    if kind >= 10:
+        return draw(_instances_case(flows))
+    if kind >= 7:
         return draw(_chain_case(flows))
     wrapped = draw(st.integers(0, 3)) == 0
     stage2 = None
@@ -222,6 +368,283 @@ def enumerate_cases(tier):
                                     "helpers": [{"mentioned": mentioned, "wrong": None, "priority": p}] if kind == "shared" else [],
                                     "choices": [choice],
                                 }
+    yield from _enumerate_spellings()
+    yield from _enumerate_instances()
+
+
+def _enumerate_spellings():
+    """Two flows of one loop start UtteranceBotAction(script="A", intensity=1, volume=2) - flow 0 as written here, flow 1 in each of
+    the 11 other writings (6 argument orders x numbers as 1 / 1.0) - in the three specificity relations (flow 0 more specific, flow 1
+    more specific, exact tie), alone / with a less specific / with a more specific competitor that starts another action; direct and
+    wrapped; both tie-break outcomes."""
+    rel = [(["a", "b"], ["a"]), (["a"], ["a", "b"]), (["a"], ["a"])]
+    for perm in range(6):
+        for floats in (False, True):
+            if perm == 0 and not floats:
+                continue
+            for m0, m1 in rel:
+                for third in (None, [], ["a", "b", "c"]):
+                    for wrapped in (False, True):
+                        for choice in (0, 1):
+                            base = {"wrong": None, "priority": None, "action": 0, "loop": None, "extra": [["intensity", 1], ["volume", 2]]}
+                            flows = [dict(base, mentioned=m0, perm=0, floats=False), dict(base, mentioned=m1, perm=perm, floats=floats)]
+                            if third is not None:
+                                flows.append({"mentioned": third, "wrong": None, "priority": None, "action": 1, "loop": None})
+                            case = {"flows": _cp(flows), "wrapped": wrapped, "stage2": None, "choices": [choice]}
+                            if not wrapped:
+                                case["via_when"] = [False, perm % 2 == 1, False][: len(flows)]
+                            yield case
+
+
+def _enumerate_instances():
+    """Activated reactor with two stages and the label behind the first match: every pair of specificities of the two matches
+    (none / one / all parameters mentioned), different / identical actions, label before / after the first action, reactor in
+    loop NEW / L1 / loop of main, three full events, both tie-break outcomes."""
+    ms = [[], ["a"], ["a", "b", "c"]]
+    for loop in ("NEW", "L1", None):
+        for m0 in ms:
+            for m1 in ms:
+                for a1 in (1, 0):
+                    for pos in ("before", "after"):
+                        for choice in (0, 1):
+                            yield {
+                                "kind": "instances",
+                                "reactor": {
+                                    "loop": loop,
+                                    "priority": None,
+                                    "stages": [{"mentioned": m0, "wrong": None, "action": 0}, {"mentioned": m1, "wrong": None, "action": a1}],
+                                    "label": [0, pos],
+                                    "ends": False,
+                                    "first": True,
+                                },
+                                "flows": [],
+                                "events": [None, None, None],
+                                "choices": [choice],
+                            }
+
+
+def _spelling_labels(groups, flows):
+    """groups: lists of flows that react to the same event in the same loop."""
+    labels = []
+    if any(f.get("extra") for f in flows):
+        labels.append("multi-argument-action")
+    for members in groups:
+        for x, y in itertools.combinations(members, 2):
+            if _aid(x, False) != _aid(y, False) or not x.get("extra"):
+                continue
+            wx, wy = _written_args(x), _written_args(y)
+            if [n for n, _ in wx] != [n for n, _ in wy]:
+                labels.append("equal-actions-kwargs-in-different-order")
+            if sorted(wx) != sorted(wy):
+                labels.append("equal-actions-number-spelled-differently(1-vs-1.0)")
+    return sorted(set(labels))
+
+
+# ------------------------------------------------------------------------------------------------
+# instances of one ACTIVATED flow as competitors (documented label `start_new_flow_instance:`), several events
+
+
+@st.composite
+def _instances_case(draw, flows):
+    """An activated flow `reactor` (loop NEW / L1 / loop of main) walks through 2-3 stages `match Ev(..)` + `start <action>`; the label
+    `start_new_flow_instance:` sits behind one of its matches (before or after the action of that stage), so older instances (further
+    down) and newer instances (at the first match) are alive together and react to the same event. 0-3 plain one-shot flows c<i>
+    as in the direct form compete in their own loops. 2-4 events Ev, each with at most one altered parameter value."""
+    stages = []
+    for _ in range(draw(st.sampled_from([2, 2, 3]))):
+        f = draw(_flow())
+        stages.append({k: v for k, v in f.items() if k not in ("priority", "loop")})
+    if draw(st.integers(0, 2)) == 0:
+        # all stages start the same action (instances in the same loop co-win; in different loops each starts it)
+        for k in range(1, len(stages)):
+            stages[k] = dict({k2: v for k2, v in stages[k].items() if k2 not in ("extra", "perm", "floats")}, action=stages[0]["action"])
+            if stages[0].get("extra"):
+                sp = draw(_spelling(0))
+                stages[k].update(extra=_cp(stages[0]["extra"]), perm=sp["perm"], floats=sp["floats"])
+    label = draw(st.sampled_from([None] + [[k, pos] for k in range(len(stages)) for pos in ("before", "after")] + [[0, "before"], [0, "after"]] * 2))
+    reactor = {
+        "loop": draw(st.sampled_from(["NEW", "NEW", "NEW", "L1", None])),
+        "priority": draw(st.sampled_from([None, None, None, 0.5, 0.1])),
+        "stages": stages,
+        "label": label,
+        "ends": draw(st.integers(0, 3)) == 0,
+        "first": draw(st.booleans()),
+    }
+    events = [draw(st.sampled_from([None, None, None, None, None, "a", "b", "c"])) for _ in range(draw(st.integers(2, 4)))]
+    return {
+        "kind": "instances",
+        "reactor": reactor,
+        "flows": _cp(flows[: draw(st.sampled_from([0, 0, 1, 2, 3]))]),
+        "events": events,
+        "choices": draw(st.lists(st.integers(0, 5), min_size=1, max_size=4)),
+    }
+
+
+def _ev_args(f):
+    return ", ".join(f"{k}={PARAMS[k] + (10 if k == f['wrong'] else 0)}" for k in f["mentioned"])
+
+
+def _instances_program(case):
+    r = case["reactor"]
+    lines = ([f'@loop("{r["loop"]}")'] if r["loop"] else []) + ["flow reactor"]
+    if r["priority"] is not None:
+        lines.append(f"  priority {r['priority']}")
+    for k, s in enumerate(r["stages"]):
+        lines.append(f"  match Ev({_ev_args(s)})")
+        if r["label"] == [k, "before"]:
+            lines.append("  start_new_flow_instance:")
+        lines.append(f"  start {_action_text(s)}")
+        if r["label"] == [k, "after"]:
+            lines.append("  start_new_flow_instance:")
+    if not r["ends"]:
+        lines.append("  match NeverR()")
+    lines.append("")
+    for i, f in enumerate(case["flows"]):
+        lines += ([f'@loop("{f["loop"]}")'] if f["loop"] else []) + [f"flow c{i}"] + _match_ev(f) + [f"  start {_action_text(f)}", f"  match Never{i}()", ""]
+    lines.append("flow main")
+    starts = [f"  start c{i}" for i in range(len(case["flows"]))]
+    lines += (["  activate reactor"] + starts) if r["first"] else (starts + ["  activate reactor"])
+    lines += ["  match Never()", ""]
+    return "\n".join(lines)
+
+
+def _fits(f, event):
+    return all(event[k] == PARAMS[k] + (10 if k == f["wrong"] else 0) for k in f["mentioned"])
+
+
+def _prop_instances(case):
+    """Reference model over the history: which instance of `reactor` (and which plain flow) waits where, who fits the event, groups
+    by interaction loop (every instance of a @loop("NEW") flow has a loop of its own), per group the usual rule. Where the rule leaves
+    a choice (exact ties) the observed statuses select the branch the model follows."""
+    r, flows = case["reactor"], case["flows"]
+    stages, nst = r["stages"], len(r["stages"])
+    rprio = r["priority"] or 1.0
+    smh.install()
+    smh.CHOOSER.reset(case["choices"])
+    state = smh.init(_instances_program(case))
+    desc = (
+        f"activated reactor[loop={r['loop'] or 'main'} priority={rprio:g}: "
+        + " / ".join(
+            f"match Ev({_ev_args(s)})" + (" <label>" if r["label"] == [k, "before"] else "") + f" start {_adesc(s)}" + (" <label>" if r["label"] == [k, "after"] else "")
+            for k, s in enumerate(stages)
+        )
+        + (" / end]" if r["ends"] else " / wait]")
+        + "".join(f"; c{i}[loop={f['loop'] or 'main'} match Ev({_ev_args(f)}) score={score(f):.4g} action={_adesc(f)}]" for i, f in enumerate(flows))
+    )
+    insts = [{"stage": 0, "spawned": False, "status": "started"}]  # model, in order of creation
+    plain = ["waiting"] * len(flows)
+    uids = []  # observed instances of reactor in order of first appearance
+    labels = {"instances", f"reactor-loop-{r['loop'] or 'main'}", f"events{len(case['events'])}", f"plain-flows{len(flows)}"}
+    labels.add("no-label" if r["label"] is None else f"label-{r['label'][1]}-action")
+    if r["ends"]:
+        labels.add("reactor-ends")
+    nt = False
+    used = False
+    trace = []
+    spell_groups = []
+    for step, altered in enumerate(case["events"]):
+        event = {k: v + (10 if k == altered else 0) for k, v in PARAMS.items()}
+        # --- model: candidates per loop
+        groups = {}
+        for j, inst in enumerate(insts):
+            if inst["status"] == "started" and inst["stage"] < nst and _fits(stages[inst["stage"]], event):
+                s = stages[inst["stage"]]
+                g = f"NEW(instance {j + 1})" if r["loop"] == "NEW" else (r["loop"] or "main")
+                groups.setdefault(g, []).append((("r", j), 0.9 ** (3 - len(s["mentioned"])) * rprio, _aid(s), s))
+        for i, f in enumerate(flows):
+            if plain[i] == "waiting" and _fits(f, event):
+                g = f"NEW(c{i})" if f["loop"] == "NEW" else (f["loop"] or "main")
+                groups.setdefault(g, []).append((("c", i), 0.9 ** (3 - len(f["mentioned"])) * (f["priority"] or 1.0), _aid(f), f))
+        per_group = []
+        for g, cands in groups.items():
+            top = max(c[1] for c in cands)
+            options = []
+            for c in cands:
+                if abs(c[1] - top) <= 1e-9:
+                    opt = (c[2], sorted(x[0] for x in cands if x[2] == c[2]))
+                    if opt not in options:
+                        options.append(opt)
+            per_group.append((g, cands, options))
+            spell_groups.append([c[3] for c in cands])
+        reacting = [c[0] for _, cands, _ in per_group for c in cands]
+        rinst = [w for w in reacting if w[0] == "r"]
+        if len(rinst) >= 2:
+            labels.add("older-and-newer-instance-fit-the-same-event")
+            labels.add("instances-in-own-loops" if r["loop"] == "NEW" else "instances-in-one-loop")
+            if len({c[2] for _, cands, _ in per_group for c in cands if c[0][0] == "r"}) >= 2:
+                labels.add("instances-with-different-actions")
+            nt = True
+        elif rinst and any(len(cands) >= 2 for _, cands, _ in per_group):
+            nt = True
+        # --- real run
+        smh.CHOOSER.reset(case["choices"][step % len(case["choices"]):] + case["choices"][: step % len(case["choices"])])
+        out = smh.feed(state, smh.ev("Ev", **event))
+        used = used or bool(smh.CHOOSER.used)
+        starts = Counter(_start_key(e) for e in out if _is_start(e))
+        cstat = {}
+        rstat = {}
+        for fs in state.flow_states.values():
+            if fs.flow_id == "reactor":
+                if fs.uid not in uids:
+                    uids.append(fs.uid)
+                rstat[fs.uid] = fs.status.value
+            elif fs.flow_id.startswith("c") and fs.flow_id[1:].isdigit():
+                cstat.setdefault(int(fs.flow_id[1:]), []).append(fs.status.value)
+        obs_r = [rstat.get(u, "gone") for u in uids]
+        obs_c = [cstat.get(i, ["missing"]) for i in range(len(flows))]
+        # --- every branch the rule allows
+        branches = []
+        for combo in itertools.product(*[opts for _, _, opts in per_group]):
+            m_insts, m_plain, exp, new = _cp(insts), list(plain), Counter(), 0
+            for (g, cands, _), (a, winners) in zip(per_group, combo):
+                exp[_aid_key(a)] += 1
+                for who, _, _, _ in cands:
+                    won = who in winners
+                    if who[0] == "c":
+                        m_plain[who[1]] = "done" if won else "stopped"
+                        continue
+                    inst = m_insts[who[1]]
+                    if won:
+                        if r["label"] is not None and r["label"][0] == inst["stage"] and not inst["spawned"]:
+                            inst["spawned"], new = True, new + 1
+                        inst["stage"] += 1
+                        if inst["stage"] == nst and r["ends"]:
+                            inst["status"] = "finished"
+                    else:
+                        if r["label"] == [inst["stage"], "before"] and not inst["spawned"]:
+                            inst["spawned"], new = True, new + 1  # passed the label, then lost at the action
+                        inst["status"] = "stopped"
+                    if inst["status"] != "started" and not inst["spawned"]:
+                        inst["spawned"], new = True, new + 1  # an activated flow restarts when it finishes or fails
+            m_insts += [{"stage": 0, "spawned": False, "status": "started"} for _ in range(new)]
+            branches.append((m_insts, m_plain, exp))
+        shown = f"{desc} | event {step + 1} of {len(case['events'])}: Ev({', '.join(f'{k}={v}' for k, v in event.items())})" + (" after " + "; ".join(trace) if trace else "")
+        want = lambda b: ([i["status"] for i in b[0]], [["stopped"] if p == "stopped" else ["started"] for p in b[1]])  # noqa: E731
+        fitting = [b for b in branches if want(b) == (obs_r, obs_c)]
+        who = lambda w: f"instance {w[1] + 1}" if w[0] == "r" else f"c{w[1]}"  # noqa: E731
+        rule = "; ".join(
+            f"loop {g}: " + ", ".join(f"{who(c[0])} (score {c[1]:.4g}, {_key_text(_aid_key(c[2]))})" for c in cands) for g, cands, _ in per_group
+        ) or "nobody fits"
+        if not fitting:
+            allowed = [f"reactor instances {want(b)[0]} plain flows {[x[0] for x in want(b)[1]]}" for b in branches]
+            raise Violation(
+                "instance-wrong-winners",
+                f"{shown}: reacting: {rule}. Observed reactor instances (oldest first) {obs_r}, plain flows {[x[-1] for x in obs_c]}, started { {_key_text(k): v for k, v in starts.items()} }; allowed: {allowed}",
+            )
+        if not any(b[2] == starts for b in fitting):
+            raise Violation(
+                "instance-wrong-actions",
+                f"{shown}: reacting: {rule}. Started { {_key_text(k): v for k, v in starts.items()} }, expected { {_key_text(k): v for k, v in fitting[0][2].items()} } (each winning action once per loop)",
+            )
+        insts, plain, _ = [b for b in fitting if b[2] == starts][0]
+        if any(i["status"] == "stopped" for i in insts):
+            labels.add("instance-lost")
+        trace.append(f"event {step + 1} started {sorted(_key_text(k) + ('x%d' % v if v > 1 else '') for k, v in starts.items())}")
+    if used:
+        labels.add("tie-break-used")
+    labels |= set(_spelling_labels(spell_groups, list(stages) + list(flows)))
+    view = {"flows": desc, "events": trace, "instances": [i["status"] + "@stage%d" % i["stage"] for i in insts]}
+    return ok(nt=nt, labels=sorted(labels), view=view)
 
 
 def _base(case, i):
@@ -242,9 +665,8 @@ def _chain_program(case):
     for k, h in enumerate(case["helpers"]):
         lines += [f"flow hs{k}"] + _match_ev(h) + [""]
     for i, (f, form) in enumerate(zip(case["flows"], case["forms"])):
-        typ, key, val = ACTIONS[f["action"]]
         deco = [f'@loop("{f["loop"]}")'] if f["loop"] else []
-        tail = [f'  start {typ}({key}="{val}")', f"  match Never{i}()", ""]
+        tail = [f"  start {_action_text(f)}", f"  match Never{i}()", ""]
         if form["kind"] == "direct":
             lines += deco + [f"flow c{i}"] + _match_ev(f) + tail
             continue
@@ -343,21 +765,21 @@ def program(case):
     lines = []
     for i, f in enumerate(case["flows"]):
         args = ", ".join(f"{k}={PARAMS[k] + (10 if k == f['wrong'] else 0)}" for k in f["mentioned"])
-        typ, key, val = ACTIONS[f["action"]]
+        act = _action_text(f)
         deco = [f'@loop("{f["loop"]}")'] if f["loop"] else []
         prio = [f"  priority {f['priority']}"] if f["priority"] is not None else []
         if case["wrapped"]:
             lines += [f"flow inner{i}"] + prio + [f"  match Ev({args})", ""]
-            lines += deco + [f"flow c{i}", f"  await inner{i}", f'  start {typ}({key}="{val}")', f"  match Never{i}()", ""]
+            lines += deco + [f"flow c{i}", f"  await inner{i}", f"  start {act}", f"  match Never{i}()", ""]
         else:
             second = []
             if case.get("stage2"):
                 t2, k2, v2 = ACTIONS[case["stage2"][i]]
                 second = ["  match $a.Finished()", f'  start {t2}({k2}="{v2}2")']
             if (case.get("via_when") or [False] * len(case["flows"]))[i]:
-                lines += deco + [f"flow c{i}"] + prio + [f"  match Ev({args})", f'  when {typ}({key}="{val}")', f"    send ActionDone{i}()", f"  match Never{i}()", ""]
+                lines += deco + [f"flow c{i}"] + prio + [f"  match Ev({args})", f"  when {act}", f"    send ActionDone{i}()", f"  match Never{i}()", ""]
             else:
-                lines += deco + [f"flow c{i}"] + prio + [f"  match Ev({args})", f'  start {typ}({key}="{val}") as $a'] + second + [f"  match Never{i}()", ""]
+                lines += deco + [f"flow c{i}"] + prio + [f"  match Ev({args})", f"  start {act} as $a"] + second + [f"  match Never{i}()", ""]
     if case.get("stop") is not None:
         lines += ['@loop("supervision")', "flow supervisor", "  match Ev()", f'  send StopFlow(flow_id="c{case["stop"]}")', "  match NeverSup()", ""]
     lines.append("flow main")
@@ -380,7 +802,29 @@ def score(f):
 
 
 def prop(case):
+    _ID["typed"] = False
+    try:
+        return _prop(case)
+    except Violation as v:
+        if not _spelling_sensitive(case):
+            raise
+        # the outcome may depend on whether intensity=1 and intensity=1.0 are the same argument value: unspecified, accept the
+        # other reading too (applied to the whole case), counted as skipped
+        _ID["typed"] = True
+        try:
+            res = _prop(case)
+        except Violation:
+            raise v from None
+        finally:
+            _ID["typed"] = False
+        return dict(res, nt=False, skip="1 and 1.0 as argument values of otherwise identical actions were treated as different values (unspecified)")
+
+
+def _prop(case):
+    if case.get("kind") == "instances":
+        return _prop_instances(case)
     flows = case["flows"]
+    aid = [_aid(f) for f in flows]
     text = program(case)
     smh.install()
     smh.CHOOSER.reset(case["choices"])
@@ -389,10 +833,8 @@ def prop(case):
     out = smh.feed(state, smh.ev("Ev", **PARAMS))
     starts = Counter()
     for e in out:
-        if e["type"].startswith("Start") and e["type"].endswith("BotAction"):
-            typ = e["type"][5:]
-            key = "script" if typ == "UtteranceBotAction" else "gesture"
-            starts[(typ, e.get(key))] += 1
+        if _is_start(e):
+            starts[_start_key(e)] += 1
     status = {}
     for fs in state.flow_states.values():
         if fs.flow_id.startswith("c") and fs.flow_id[1:].isdigit():
@@ -407,11 +849,11 @@ def prop(case):
     chains = [_chain(case, i) for i in range(len(flows))] if chained else None
     if chained:
         desc = "; ".join(
-            f"c{i}[loop={f['loop'] or 'main'} chain={_chain_desc(case, i)} action={ACTIONS[f['action']][0][:3]}:{ACTIONS[f['action']][2]}]" for i, f in enumerate(flows)
+            f"c{i}[loop={f['loop'] or 'main'} chain={_chain_desc(case, i)} action={_adesc(f)}]" for i, f in enumerate(flows)
         ) + " chained (name/await = score of the match on the helper's Finished event, times the priority of the matching flow)"
     else:
         desc = "; ".join(
-            f"c{i}[loop={f['loop'] or 'main'} score={score(f):.4g} action={ACTIONS[f['action']][0][:3]}:{ACTIONS[f['action']][2]}]" for i, f in enumerate(flows)
+            f"c{i}[loop={f['loop'] or 'main'} score={score(f):.4g} action={_adesc(f)}]" for i, f in enumerate(flows)
         ) + (" wrapped" if case["wrapped"] else "")
     ambiguous = False
     chain_labels = set()
@@ -446,10 +888,10 @@ def prop(case):
                 ambiguous = True
             if len({len(chains[i]) for i in fit}) >= 2:
                 chain_labels.add("chain-mixed-depth")
-            if any(len(chains[i]) < len(chains[j]) and _cmp_elementwise(chains[i], chains[j][: len(chains[i])]) == "=" and flows[i]["action"] != flows[j]["action"] for i in fit for j in fit):
+            if any(len(chains[i]) < len(chains[j]) and _cmp_elementwise(chains[i], chains[j][: len(chains[i])]) == "=" and aid[i] != aid[j] for i in fit for j in fit):
                 chain_labels.add("chain-prefix-of-longer-competitor")
             if any(
-                i < j and len(chains[i]) == len(chains[j]) and _cmp(chains[i][0], chains[j][0]) == "=" and _cmp_elementwise(chains[i], chains[j]) in "<>" and flows[i]["action"] != flows[j]["action"]
+                i < j and len(chains[i]) == len(chains[j]) and _cmp(chains[i][0], chains[j][0]) == "=" and _cmp_elementwise(chains[i], chains[j]) in "<>" and aid[i] != aid[j]
                 for i in fit
                 for j in fit
             ):
@@ -459,8 +901,8 @@ def prop(case):
             tied = [i for i in fit if abs(score(flows[i]) - top) <= 1e-9]
         options = []
         for w in tied:
-            a = flows[w]["action"]
-            winners = sorted(i for i in fit if flows[i]["action"] == a)
+            a = aid[w]
+            winners = sorted(i for i in fit if aid[i] == a)
             if (a, winners) not in options:
                 options.append((a, winners))
         # which option does the observation correspond to?
@@ -476,16 +918,18 @@ def prop(case):
                 raise Violation("loser-not-stopped", f"{desc}: loop {g}: losing flow c{i} is {observed[i]}")
         expected_starts_options.append(match[0][0])
         if chained:
-            if not ambiguous and len({flows[i]["action"] for i in fit}) >= 2 and (len(tied) < len(fit) or len(options) >= 2):
+            if not ambiguous and len({aid[i] for i in fit}) >= 2 and (len(tied) < len(fit) or len(options) >= 2):
                 nt = True
         elif (len(fit) >= 3 and len({round(score(flows[i]), 9) for i in fit}) >= 2) or len(options) >= 2:
             nt = True
     exp = Counter()
     for a in expected_starts_options:
-        typ, key, val = ACTIONS[a]
-        exp[(typ, val)] += 1
+        exp[_aid_key(a)] += 1
     if exp != starts:
-        raise Violation("wrong-actions", f"{desc}: started actions {dict(starts)}, expected {dict(exp)} (each winning action exactly once per loop)")
+        raise Violation(
+            "wrong-actions",
+            f"{desc}: started actions { {_key_text(k): v for k, v in starts.items()} }, expected { {_key_text(k): v for k, v in exp.items()} } (each winning action exactly once per loop)",
+        )
     if fitting_groups >= 2 and not ambiguous:
         nt = True
     stage2_done = False
@@ -493,7 +937,7 @@ def prop(case):
         # round 2: finish the (single, shared) action of round 1
         (g, members), = [(g, m) for g, m in groups.items() if any(score(flows[i]) > 0 for i in m)]
         winners1 = sorted(i for i in members if observed[i] == "started" and score(flows[i]) > 0)
-        start_ev = [e for e in out if e["type"].startswith("Start") and e["type"].endswith("BotAction")]
+        start_ev = [e for e in out if _is_start(e)]
         if len(start_ev) == 1 and winners1:
             e0 = start_ev[0]
             smh.CHOOSER.reset(case["choices"][::-1])
@@ -551,9 +995,10 @@ def prop(case):
         labels.append("action-behind-head-fork")
     if case.get("stop") is not None:
         labels.append("competitor-stopped-in-same-step")
-    if any(len([1 for o in [flows[i]["action"] for i in m]]) != len({flows[i]["action"] for i in m}) for m in groups.values()):
+    if any(len(m) != len({aid[i] for i in m}) for m in groups.values()):
         labels.append("equal-actions")
-    view = {"flows": desc, "started": {f"{k[0]}:{k[1]}": v for k, v in starts.items()}, "status": {f"c{i}": s for i, s in observed.items()}}
+    labels += _spelling_labels([[flows[i] for i in m if sc[i] > 0 and i != stopped_by_supervisor] for m in groups.values()], flows)
+    view = {"flows": desc, "started": {_key_text(k): v for k, v in starts.items()}, "status": {f"c{i}": s for i, s in observed.items()}}
     if ambiguous:
         return ok(nt=False, labels=labels, view=view, skip="chained: the two readings of 'most specific' disagree or depend on the score of a Finished-match")
     return ok(nt=nt, labels=labels, view=view)
